@@ -385,8 +385,6 @@ class Index:
                     raise Unfoldable('pow too large')
                 if isinstance(expr.op, ast.LShift) and isinstance(b, int) and b > 4096:
                     raise Unfoldable('shift too large')
-                if isinstance(expr.op, ast.Mod) and isinstance(a, (str, bytes)):
-                    raise Unfoldable('format')
                 return ops[type(expr.op)](a, b)
             except Unfoldable:
                 raise
